@@ -19,18 +19,24 @@ import (
 //	         M  fake chat model                         ([]*Message -> *Message)
 //	         T  tools node with one recording tool      (*Message   -> []*Message)
 //	         Z  passthrough node
+//	         K  passthrough node with WithOutputKey("k")   ([]*Message -> map)      J  with WithInputKey("k") (map -> []*Message)
+//	         O  like X, added with WithOutputKey("k")      ([]*Message -> map)      I  like X, with WithInputKey("k") (map -> []*Message)
+//
+// A sub-graph node is added with an output key when its builder letter is preceded by 'o' (g:oG[...]: []*Message -> map)
+// and with an input key when preceded by 'i' (map -> []*Message): keyed nodes run behind a wrapper of their own.
 //
 // Nodes of one graph run in sequence (START -> n0 -> n1 ... -> END). Every (sub-)graph maps []*Message to
 // []*Message. Node keys are given explicitly so that the same key can be reused at several levels.
 
 type Node struct {
-	Key  string
-	Kind string // X Y P W U M T Z or G (sub-graph)
-	Sub  *Graph
-	Path []string // full path from the top graph
-	ID   string   // Path joined by "/"; also used as node name (RunInfo.Name)
-	Idx  int      // index in Tree.All
-	Up   *Node    // enclosing graph node (nil at top level)
+	Key   string
+	Kind  string // X Y P W U M T Z K J O I or G (sub-graph)
+	Keyed byte   // sub-graph nodes: 'o' = added with WithOutputKey("k"), 'i' = with WithInputKey("k"), 0 = plain
+	Sub   *Graph
+	Path  []string // full path from the top graph
+	ID    string   // Path joined by "/"; also used as node name (RunInfo.Name)
+	Idx   int      // index in Tree.All
+	Up    *Node    // enclosing graph node (nil at top level)
 }
 
 type Graph struct {
@@ -109,13 +115,17 @@ func (p *parser) node() *Node {
 	}
 	n := &Node{Key: p.s[p.i : p.i+j]}
 	p.i += j + 1
+	if p.i+2 < len(p.s) && p.s[p.i+2] == '[' && (p.s[p.i] == 'o' || p.s[p.i] == 'i') {
+		n.Keyed = p.s[p.i]
+		p.i++
+	}
 	if p.i+1 < len(p.s) && p.s[p.i+1] == '[' {
 		n.Kind = "G"
 		n.Sub = p.graph()
 		return n
 	}
 	n.Kind = string(p.s[p.i])
-	if !strings.Contains("XYPWUMTZKJ", n.Kind) {
+	if !strings.Contains("XYPWUMTZKJOI", n.Kind) {
 		p.fail("unknown kind")
 	}
 	p.i++
@@ -131,9 +141,9 @@ func kindIO(k string) (in, out string) {
 		return "S", "L"
 	case "Z":
 		return "", ""
-	case "K": // passthrough with an output key: wraps its input into a map
+	case "K", "O": // node with an output key: wraps its output into a map
 		return "L", "D"
-	case "J": // passthrough with an input key: unwraps the map again
+	case "J", "I": // node with an input key: takes its input out of the map again
 		return "D", "L"
 	}
 	return "L", "L"
@@ -164,6 +174,12 @@ func parseTree(spec string) *Tree {
 			t.All = append(t.All, n)
 			t.ByID[n.ID] = n
 			in, out := kindIO(n.Kind)
+			switch n.Keyed {
+			case 'o':
+				in, out = "L", "D"
+			case 'i':
+				in, out = "D", "L"
+			}
 			if in != "" {
 				if in != cur {
 					panic(fmt.Sprintf("spec %s: node %s expects %s but gets %s", spec, n.ID, in, cur))
@@ -229,7 +245,12 @@ var optTypes = []string{"X", "Y", "M", "T", "CB"}
 // isPass: pass-through nodes, plain (Z) or keyed (K: WithOutputKey, J: WithInputKey).
 func isPass(kind string) bool { return kind == "Z" || kind == "K" || kind == "J" }
 
-func accepts(kind, t string) bool { return kind == t && strings.Contains("XYMT", kind) }
+func accepts(kind, t string) bool {
+	if kind == "O" || kind == "I" { // keyed lambdas take optX like X
+		kind = "X"
+	}
+	return kind == t && strings.Contains("XYMT", kind)
+}
 
 type Menu struct {
 	Atoms   []Atom
@@ -377,6 +398,9 @@ var quickSpecs = []string{
 	"F[a:X g:F[a:Y b:M c:T]]",          // workflow in workflow
 	"G[a:X p:Z g:G[p:Z a:X]]",          // passthrough nodes (non-graph nodes without an option type)
 	"G[a:X k:K j:J b:Y]",               // keyed passthrough nodes (output key / input key): passthroughs like any other
+	"G[a:O b:I c:Y]",                   // lambdas added with an output key / an input key take options like any other
+	"G[g:oG[a:X b:Y] h:iG[a:Y b:X]]",   // sub-graph nodes added with an output key / an input key
+	"C[a:O g:iC[a:X b:M c:T]]",         // the same in chains, components below the keyed sub-chain
 }
 
 var thoroughSpecs = []string{
